@@ -703,17 +703,17 @@ impl FdlActiveStation {
             current_address + 1
         };
 
-        if next_address >= next_station && next_station > self.p.address {
+        // The GAP consists of the addresses strictly between TS and NS (cyclically, below HSA).  As
+        // soon as the next address is outside of it, the end of the GAP is reached.
+        let in_gap = if next_station > self.p.address {
+            next_address > self.p.address && next_address < next_station
+        } else {
+            // NS <= TS: wrap-around GAP (NS == TS: all addresses except TS)
+            next_address > self.p.address || next_address < next_station
+        };
+
+        if !in_gap {
             // We have reached the end of the GAP, enter waiting state.
-            GapState::Waiting { rotation_count: 0 }
-        } else if next_address == next_station && next_station == self.p.address {
-            // We have reached the end of the GAP, enter waiting state (NS==TS case).
-            GapState::Waiting { rotation_count: 0 }
-        } else if next_address >= next_station
-            && next_station < self.p.address
-            && next_address < self.p.address
-        {
-            // We have reached the end of the GAP, enter waiting state (wrap-around GAP case).
             GapState::Waiting { rotation_count: 0 }
         } else {
             GapState::DoPoll {
